@@ -52,11 +52,13 @@ package tags
 //@ ensures shift: result == w.i.Index(i + w.n)
 
 //@ func (tags.limitWrapper).Len
+//@ overflow
 //@ pure
 //@ props C11 C01
 //@ ensures take: result == min(w.n, w.i.Len())
 
 //@ func (tags.limitWrapper).Index
+//@ overflow
 //@ pure
 //@ props C11 C01
 //@ requires inrange: 0 <= i && i < min(w.n, w.i.Len())
@@ -101,6 +103,7 @@ package tags
 // ---- the render loop: visits Index(0..l) in order, binds forloop, restores (C11, C12)
 
 //@ func (tags.loopRenderer).render
+//@ overflow
 //@ requires wvalid: is(w, *render.trimWriter) ==> valid(as(w, *render.trimWriter))
 //@ props C11 C12 C20 C01 C03 C04
 //@ requires args: iter != nil && ctx != nil && w != nil
